@@ -9,7 +9,7 @@
 From Coq Require Import List Bool NArith Permutation Sorted.
 Import ListNotations.
 From Verif Require Import DescWrapModel DescWrapProofs DescWrapStd DescWrapSort DescWrapKeys DescWrapSplit
-  DescWrapFind DescWrapPaths DescWrapParse DescWrapEntry.
+  DescWrapFind DescWrapPaths DescWrapParse DescWrapEntry DescWrapOrigin.
 Local Open Scope N_scope.
 
 (* ---------------------------------------------------------------- push_roundtrip *)
@@ -267,6 +267,28 @@ Theorem C16_derive_rejects : forall i d,
   (exists k, In k (desc_keys d) /\ derivable i k = false) -> exists e, at_derivation_index i d = KErr e.
 Proof. exact at_index_err. Qed.
 Print Assumptions C16_derive_rejects.
+
+(* Derivation does not depend on key-origin information: rewriting the origins of the keys in
+   any way (the same origin on different xpubs, different origins on the same xpub) changes
+   neither derivability nor any derived key - hence no script and no address.  Together with
+   C16_derive_commutes (a function of the descriptor and the index only) this also says that
+   there is no dependence on what was derived before. *)
+Theorem C16_origin_irrelevant : forall ckd full_key xonly_key (f : dkey -> origin) i d,
+  let d' := desc_map (fun k => with_origin (f k) k) d in
+  (forall k, In k (desc_keys d) -> derivable i k = true) ->
+  (forall k, In k (desc_keys d') -> derivable i k = true) /\
+  derived_descriptor ckd full_key xonly_key (desc_map (definite_form i) d')
+  = derived_descriptor ckd full_key xonly_key (desc_map (definite_form i) d) /\
+  desc_map (spec_key_at ckd full_key xonly_key i) d' = desc_map (spec_key_at ckd full_key xonly_key i) d.
+Proof. exact origin_irrelevant. Qed.
+Print Assumptions C16_origin_irrelevant.
+
+Theorem C16_same_origin_different_xpub : forall ckd full_key xonly_key o x1 x2 p i,
+  existsb is_hardened p = false -> valid_index i = true ->
+  derive_pk_total ckd full_key xonly_key (definite_form i (KXpub o x1 p WUnhardened)) = ckd x1 (p ++ [Step false i]) /\
+  derive_pk_total ckd full_key xonly_key (definite_form i (KXpub o x2 p WUnhardened)) = ckd x2 (p ++ [Step false i]).
+Proof. exact same_origin_different_xpub. Qed.
+Print Assumptions C16_same_origin_different_xpub.
 
 (* the entry points agree: without a wildcard derive_at_index reports NoWildcard and (on a
    single-path descriptor) into_definite = at_derivation_index at any index; with a wildcard
